@@ -18,7 +18,7 @@ def hx(s):
     return "x" + s.hex()
 
 
-ALL_API_FINDINGS = {"D01", "D02", "D03", "D05", "D06", "D07", "D08", "D09", "D16", "D17", "D18"}
+ALL_API_FINDINGS = {"D01", "D02", "D03", "D05", "D06", "D08", "D16", "D17", "D18"}
 ALLFAM = "str,key,list,set,hash,zset,expire"
 
 
@@ -356,8 +356,8 @@ class C06(CrossCfg):
 
 
 class C10(CrossCfg):
-    lean = ["Props.C10clean", "Audit.C10clean"]
-    audit = ["C10clean"]
+    lean = ["Props.C10clean", "Audit.C10clean", "Props.C10", "Audit.C10"]
+    audit = ["C10clean", "C10"]
     tie = ["SqlExpiry", "SqlFull_rkey"]
     facts = [r"^sql\..*\.expiry$", r"^sql\.rkey\.sql(Delete|Expire|Persist)", r"^consts\.bg_"]
     listed = ALL_API_FINDINGS
@@ -425,6 +425,8 @@ class C12(CrossCfg):
 
 
 class C19(CrossCfg):
+    lean = ["Props.C19", "Audit.C19"]
+    audit = ["C19"]
     tie = ["SqlMeta", "Schema"]
     facts = [r"^sql\..*\.meta$", r"^schema\.trigger_"]
     listed = set()
@@ -718,14 +720,6 @@ def wire_known(w):
     if not w["args"]:
         return k
     name = w["args"][0].lower()
-    if name in NUMKEYS_CMDS:
-        idx = 2 if name.endswith(b"store") else 1
-        if len(w["args"]) > idx:
-            try:
-                if int(w["args"][idx]) < 0:
-                    k.add("D11")
-            except ValueError:
-                pass
     if name == b"exec" and w["inMulti"]:
         k.add("D12?")      # confirmed below only when the reply is short
     return k
@@ -748,8 +742,27 @@ def wire_finding_reproduced(f, line):
     return False
 
 
+def judge_sock(v, line):
+    """SOCK lines: the real server binary over a unix socket against the in-process handler chain."""
+    if v.get("H") == "0":
+        why = line.split(" | ")[-1]
+        return ("violation", "real server over a socket: " + why[:200])
+    if v.get("B") == "0":
+        return ("violation", "the bytes on the wire are not the RESP encoding of the reply tokens")
+    if v.get("D") == "0" and not line.rstrip().endswith("SHORT"):
+        return ("violation", "the strict RESP decoder does not read exactly one reply from the bytes the server sent")
+    return None
+
+
 class WireCfg(Cfg):
     needs_wire = True
+    sock_streams = 0
+
+    def sock(self, tier, seed, search):
+        n = self.sock_streams * (4 if tier == "thorough" else 1)
+        r = 1500 if tier == "thorough" else 400
+        return [dict(kind="sock", driver="wiredriver", args=["-seed", seed * 1000 + 950 + i, "-requests", r]) for i in range(n)]
+
     lean = ["Model.Wire.Server", "Model.Wire.Witness", "WireProto"]
     tie = ["Grammar", "Dispatch", "Server"]
     facts = [r"^dispatch", r"^server\.", r"^grammar"]
@@ -766,7 +779,7 @@ class WireCfg(Cfg):
                     args[1] = i      # exhaustive shards are numbered from 0
                     args[3] = traces
                 out.append(dict(kind="wire", driver="wiredriver", args=args))
-        return out
+        return out + self.sock(tier, seed, search)
 
     def counts(self, op, v):
         return True
@@ -783,7 +796,11 @@ class C13(WireCfg):
             "table runs the generated grammars and maps every command to the model of its documented API call (typed reply tokens and full table "
             "dump compared); a case is one request, distinct by (request, pre-state), non-trivial when the reply is not an error")
 
+    sock_streams = 2
+
     def judge(self, op, v, mode):
+        if "H" in v:
+            return judge_sock(v, v.get("_line", ""))
         if v.get("M") == "0":
             return ("violation", "the reply or the resulting tables differ from the typed encoding of the documented API call on the same data (wire model)")
         return None
@@ -793,17 +810,21 @@ class C14(WireCfg):
     lean = WireCfg.lean + ["Props.C14", "Audit.C14", "Props.C17", "Audit.C17"]
     audit = ["C14", "C17"]
     wire_streams = [("malformed", 6, 60, 100), ("pool", 6, 20, 200), ("multi", 4, 60, 100)]
-    listed = {"D11", "D12"}
+    listed = {"D12"}
     rule = ("every supported and unsupported command name x argument vectors of length 0..3 over a pool of hostile tokens (exhaustive for short vectors), "
             "random malformed vectors, the same inside MULTI/EXEC; the token sequence written for each request must be exactly one complete RESP value "
             "and the handler must not panic (a panic kills the real server); the connection state after the request must be the model's")
 
+    sock_streams = 3
+
     def judge(self, op, v, mode):
+        if "H" in v:
+            return judge_sock(v, v.get("_line", ""))
         w = v.get("_wire")
         if w:
             values, incomplete, panicked = reply_shape(w["toks"])
             known = wire_known(w)
-            if panicked and "D11" not in known:
+            if panicked:
                 return ("violation", "the handler panicked (the real server would go down)")
             if not panicked and (values != 1 or incomplete):
                 short_exec = (w["args"] and w["args"][0].lower() == b"exec" and w["inMulti"]
@@ -955,9 +976,9 @@ class C18(Cfg):
 PROPS = {
     "C01": C01("C01", "str", "rstring", {"D05", "D17"}),
     "C02": C02("C02", "list", "rlist", {"D01", "D02", "D03", "D05"}),
-    "C03": C03("C03", "set", "rset", {"D05", "D07", "D08"}),
+    "C03": C03("C03", "set", "rset", {"D05", "D08"}),
     "C04": C04("C04", "hash", "rhash", {"D05", "D17"}),
-    "C05": C05("C05", "zset", "rzset", {"D05", "D07", "D08", "D09"}),
+    "C05": C05("C05", "zset", "rzset", {"D05", "D08"}),
     "C06": C06(),
     "C07": C07(),
     "C08": C08(),
